@@ -254,6 +254,12 @@ class GroupbyChunks(Harness):
                 if tier == "thorough" or len(chunks) <= 2 or chunks == [1] * n:
                     out.append(dict(n=n, contigs=contigs, chunks=chunks, api="track_sum"))
                     out.append(dict(n=n, contigs=contigs, chunks=chunks, api="track_sum", via="get_data"))
+        # two interval sets synchronised contig by contig (MultiStream, as forbes / jaccard do) and reduced to their contingency table:
+        # an offender in EITHER set -- also at its very end -- must raise, whichever set is passed first
+        for contigs in ([0, 0, 1, 2], [0, 2, 2, 2], [0, 2, 1, 1], [2, 2, 0, 0], [0, 1, 2, 3], [1, 2, 0, 0]):
+            contigs = contigs + [contigs[-1]] * (n - 4)
+            for order in ("ab", "ba"):
+                out.append(dict(n=n, contigs=contigs, chunks=[n], api="contingency", order=order))
         # a genome that keeps a contig whose name contains '_': it is a chromosome like the others in every streamed evaluation
         for contigs in ([0, 1, 2, 2], [0, 0, 2, 2], [1, 1, 1, 1], [0, 2, 2, 2]):
             contigs = contigs + [contigs[-1]] * (n - 4)
@@ -293,6 +299,18 @@ class GroupbyChunks(Harness):
                     tot = tot + v_ * (int(b_) - int(a_))
                 return dict(total=tot, n_records=len(d))
             return dict(total=ctx.lst(compute(track.sum())))
+        if skel["api"] == "contingency":
+            from bionumpy.streams import MultiStream
+            from bionumpy.arithmetics.similarity_measures import get_contingency_table
+            C = self._C(skel)
+            names = [(C + ["zz"])[c] for c in skel["contigs"]]
+            pos = [3 * sum(1 for c in skel["contigs"][:i] if c == skel["contigs"][i]) for i in range(n)]
+            B = Interval(names, pos, [p + 2 for p in pos])
+            A = Interval(list(C), [0] * len(C), [x[f"w{i}"] for i in range(len(C))] if False else [2] * len(C))     # [0, 2) on every contig
+            first, second = (A, B) if skel["order"] == "ab" else (B, A)
+            ms = MultiStream({c: 20 for c in C}, a=first, b=second)
+            t = get_contingency_table(ms.a, ms.b, ms.lengths)
+            return dict(table=ctx.lst(t))
         names = [self._C(skel)[c] for c in skel["contigs"]]
         starts = [x[f"s{i}"] for i in range(n)]
         stops = [x[f"s{i}"] + x[f"w{i}"] for i in range(n)]
@@ -344,6 +362,14 @@ class GroupbyChunks(Harness):
         return all(c < 3 for c in cs) and cs == sorted(set(cs))
 
     def post(self, skel, x, out):
+        if skel["api"] == "contingency":
+            if isinstance(out, Exc):
+                return not self._track_ok(skel)
+            if not self._track_ok(skel):
+                return False                             # a table although entries of one set cannot be placed
+            t = out["table"]
+            both = 2 * len(set(skel["contigs"]))         # the first entry of every contig of B coincides with A's [0, 2)
+            return [[int(v) for v in row] for row in t][0][0] == both and sum(int(v) for row in t for v in row) == 20 * len(self._C(skel))
         if skel["api"] == "track_sum":
             if isinstance(out, Exc):
                 return not self._track_ok(skel)          # an error is due exactly when the order / the names do not fit the genome
@@ -366,6 +392,17 @@ class GroupbyChunks(Harness):
         return z_and(conj)
 
     def oracle(self, skel, cx, cout):
+        if skel["api"] == "contingency":
+            names = [(self._C(skel) + ["zz"])[c] for c in skel["contigs"]]
+            desc = (f"contingency table of A = [0,2) on every contig of {self._C(skel)} and B = entries on contigs {names}, passed as "
+                    f"({'A, B' if skel['order'] == 'ab' else 'B, A'}) through MultiStream")
+            if isinstance(cout, Exc):
+                return None if not self._track_ok(skel) else f"{desc}: raised {cout}"
+            if not self._track_ok(skel):
+                return f"{desc}: table {cout['table']} although the contigs of B do not fit the genome order / names (entries dropped without an error)"
+            t = [[int(v) for v in row] for row in cout["table"]]
+            ok = t[0][0] == 2 * len(set(skel["contigs"])) and sum(map(sum, t)) == 20 * len(self._C(skel))
+            return None if ok else f"{desc}: table {t}"
         if skel["api"] == "track_sum":
             names = [(self._C(skel) + ["zz"])[c] for c in skel["contigs"]]
             desc = f"bedGraph stream with contigs {names} (genome {self._C(skel)}) cut into chunks of sizes {skel['chunks']}, values {[cx[f'w{i}'] for i in range(skel['n'])]} on 2 bases each, evaluated through {skel.get('via', 'sum')}"
